@@ -13,6 +13,7 @@ Helper lemmas for L6 `DtRes` (used by `RTV/Props/C06.lean`, `RTV/Props/C07.lean`
 * ChineseTimeParser: `zhHandle_digit`, `zhPack_digit`, `resolveTimeZh_digit`
 * word shift of `merge_date_and_time`: `mergeHour`, `merge_clock_words`, `matchToTime_designator`,
   `resolveDateAtTime_designator`
+* `parse_time_of_today`: `parseTimeOfToday_parsed`, `enGetHour_pmWord`, `enGetHour_morning`
 * `<date> at <time>`: `merge_clock`, `allStrToPm_one` (`all_str_to_pm` on `<prefix>Thh<suffix>`),
   `dtRes_datetime_plain/ampm`, `resolveDateAtTime_clock`
 -/
@@ -1140,6 +1141,54 @@ theorem resolveDateAtTime_designator (u : Uni) (dcfg : DateCfg) (hmax : dcfg.max
   rw [merge_clock_words c w60 _ hh24 _ _ y mo d hvd _ ⟨rfl, rfl, rfl⟩ pmT amT only]
   simp only [ne, Bool.or_false, ne_eq, not_true_eq_false, and_false, if_false]
   exact dtRes_datetime_plain u _ y mo d _ c.m c.s (by omega) (by omega)
+
+
+
+/-! ### `parse_time_of_today` -/
+
+theorem addDays_zero (x : Date) (hv : x.valid = true) : x.addDays 0 = some x := by
+  have r := ord_range x hv
+  simp [Date.addDays, addDaysOrd, ofOrd_ord x hv]
+  omega
+
+/-- `parse_time_of_today` when the time part went through the time parser and the day word carries no `next` / `last`:
+the date is the reference date, the hour is `get_hour(word, hour)`. -/
+theorem parseTimeOfToday_parsed (u : Uni) (cfg : TodCfg) (c : Clock) (w60 : c.m < 60 ∧ c.s < 60) (hh : Nat) (hh24 : hh < 24) (cm : Str)
+    (tv : DT) (htv : tv.hh = hh ∧ tv.mi = c.m ∧ tv.ss = c.s) (ms : Str) (hsw : cfg.getSwiftDay ms = 0)
+    (h' : Nat) (hget : cfg.getHour ms hh = h') (h24 : h' < 24) (ref : DT) (hv : ref.date.valid = true) :
+    parseTimeOfToday u cfg (.parsed (toSlot .time (Res.mk true (c.timex hh) cm tv tv))) (some ms) ref =
+      .ok (Res.mk true (ymd ref.y ref.m ref.d ++ c.timex h') [] ⟨ref.y, ref.m, ref.d, h', c.m, c.s⟩
+        ⟨ref.y, ref.m, ref.d, h', c.m, c.s⟩) := by
+  obtain ⟨e1, e2, e3⟩ := htv
+  have mk := mkDateTime_ok ref hv h' c.m c.s h24 w60.1 w60.2
+  have ad := addDays_zero ref.date hv
+  have hlt : hh < 100 ∨ True := Or.inr trivial
+  have e : 84 :: (fmtD 2 (h' : Int) ++ c.tail) = c.timex h' := rfl
+  simp only [DT.date] at ad
+  simp [parseTimeOfToday, toSlot, e1, e2, e3, hsw, hget, DT.date, ad, timex_not_ampm c w60 hh (by omega),
+    timex_drop3 c hh (by omega), mk, e, formatDate_eq, pure, Except.pure, bind, Except.bind]
+
+
+theorem enGetSwiftDay_plain (u : Uni) (ms : Str) (hn : startsWith (strip u.isSpace ms) [110, 101, 120, 116] = false)
+    (hl : startsWith (strip u.isSpace ms) [108, 97, 115, 116] = false) : enGetSwiftDay u ms = 0 := by
+  simp [enGetSwiftDay, hn, hl]
+
+/-- `get_hour` for a day word that is not a `morning` (tonight, this afternoon, this evening): hours 6–11 become pm,
+hours ≥ 12 stay; for a `night` word hours below 6 stay am -/
+theorem enGetHour_pmWord (u : Uni) (ms : Str) (hm : endsWith (strip u.isSpace ms) [109, 111, 114, 110, 105, 110, 103] = false)
+    (h : Nat) (h6 : 6 ≤ h) (h24 : h < 24) : enGetHour u ms (h : Int) = ((if h < 12 then h + 12 else h : Nat) : Int) := by
+  have a : ¬ ((h : Int) < 6) := by omega
+  simp only [enGetHour, hm, Bool.false_and, Bool.false_eq_true, if_false, Bool.not_false, Bool.true_and]
+  by_cases hl : h < 12
+  · have : (h : Int) < 12 := by omega
+    simp [hl, this, a]
+  · have : ¬ ((h : Int) < 12) := by omega
+    simp [hl, this]
+
+theorem enGetHour_morning (u : Uni) (ms : Str) (hm : endsWith (strip u.isSpace ms) [109, 111, 114, 110, 105, 110, 103] = true)
+    (h : Nat) (h12 : h < 12) : enGetHour u ms (h : Int) = (h : Int) := by
+  have : ¬ ((h : Int) ≥ 12) := by omega
+  simp [enGetHour, hm, this]
 
 
 end RTV.DtRes
